@@ -136,6 +136,14 @@ CMP = {ast.Lt: "<", ast.LtE: "≤", ast.Gt: ">", ast.GtE: "≥", ast.Eq: "=", as
 MODULE_CONSTS: dict[str, dict[str, int]] = {}
 
 
+def _is_key_presence(c) -> bool:
+    """`k in self.mean_` / `k[0] in self.mean_ and k[1] in self.mean_`: a key-presence filter"""
+    if isinstance(c, ast.BoolOp) and isinstance(c.op, ast.And):
+        return all(_is_key_presence(v) for v in c.values)
+    return (isinstance(c, ast.Compare) and len(c.ops) == 1 and isinstance(c.ops[0], ast.In)
+            and _is_self_attr(c.comparators[0], "mean_"))
+
+
 def _is_self_attr(e: ast.expr, attr: str | None = None) -> bool:
     return (isinstance(e, ast.Attribute) and isinstance(e.value, ast.Name) and e.value.id == "self"
             and (attr is None or e.attr == attr))
@@ -366,6 +374,8 @@ class Tr:
                 return self.call_sig(AGGR_METHODS[f.attr], self.ex(recv), args, e.keywords)
         raise Unsupported(ast.dump(e))
 
+    # a filter `if col in self.mean_` on such a comprehension only says which keys exist; the model's
+    # dictionaries are total functions (keys are not modelled), so it does not change the value rendering
     def aggregates_ctor(self, e: ast.Call) -> str:
         """`Aggregates(count_=…, mean_={c: E for c in self.mean_}, …)` inside `__add__`:
         a dict comprehension over the receiver's own keys becomes a function of the key."""
@@ -384,7 +394,8 @@ class Tr:
                 out["count_"] = self.ex(v)
             elif kw.arg in ("mean_", "var_", "cov_"):
                 if not (isinstance(v, ast.DictComp) and len(v.generators) == 1
-                        and not v.generators[0].ifs and _is_self_attr(v.generators[0].iter, kw.arg)
+                        and all(_is_key_presence(c) for c in v.generators[0].ifs)
+                        and _is_self_attr(v.generators[0].iter, kw.arg)
                         and isinstance(v.generators[0].target, ast.Name)
                         and isinstance(v.key, ast.Name) and v.key.id == v.generators[0].target.id):
                     raise Unsupported(f"Aggregates({kw.arg}=…) is not a comprehension over self.{kw.arg}")
@@ -1386,7 +1397,14 @@ def render_add_safe(fn: ast.FunctionDef) -> str:
     ret = fn.body[-1]
     if not (isinstance(ret, ast.Return) and isinstance(ret.value, ast.Call)):
         raise Unsupported("__add__ shape")
-    kws = {k.arg: ast.unparse(k.value) for k in ret.value.keywords}
+    kws = {}
+    for k in ret.value.keywords:
+        v = k.value
+        if isinstance(v, ast.DictComp) and len(v.generators) == 1 and all(_is_key_presence(c) for c in v.generators[0].ifs):
+            g = v.generators[0]                  # key-presence filters: keys are not modelled (see aggregates_ctor)
+            v = ast.DictComp(key=v.key, value=v.value,
+                             generators=[ast.comprehension(target=g.target, iter=g.iter, ifs=[], is_async=0)])
+        kws[k.arg] = ast.unparse(v)
     want = {"count_": "self.count() + other.count() if self.count_ is not None else None",
             "mean_": "{col: _add_mean(self, other, col) for col in self.mean_}",
             "var_": "{col: _add_var(self, other, col) for col in self.var_}",
